@@ -1049,6 +1049,15 @@ def rule_grammar_guards(col, facts):
                 first = True
             elif "first" in names or "get_unchecked" in names and "eq" in names:
                 raw = raw or show(e)
+        # ... and about the *integer* digits: the running digit count later takes in the fraction digits, so the
+        # test has to be made before the fraction is parsed (moved after it, `0.5` has two digits and a leading
+        # zero and is rejected: nothing the writer prints below one reads back under JSON-like formats)
+        from rules.pipeline import reach_from
+        frac = [b2 for b2, c2, a2, d2, t2 in pn.calls() if last_seg(callee_name(c2)) == "fraction_iter"]
+        if frac:
+            late = [b2 for b2 in frac if bb in reach_from(pn, b2)]
+            col.check(R, "parse_number:InvalidLeadingZeros#%d:before-fraction" % k, not late,
+                      "the leading-zeros error is decided after the fraction digits were parsed: the digit count it compares with 1 includes them, so `0.5` (one integer digit) is rejected under no_float_leading_zeros", pn.loc(sp))
         col.check(R, "parse_number:InvalidLeadingZeros#%d:counts-digits" % k, counted and first,
                   "the leading-zeros error is decided from the raw bytes of the integer component (%s) instead of the digit count (current_count) and the iterator's first digit: digit separators are counted as digits, `0_` / `0_.5` are rejected under no_float_leading_zeros" % (raw or "no digit-count comparison found")[:160], pn.loc(sp))
 
@@ -3316,3 +3325,58 @@ def rule_default_flags_exact(col, facts):
                     ok = True
     col.check(R, "not_feature_format:flags-equal-defaults", ok,
               "format_error_impl no longer compares `format & FLAG_MASK` with the default flags for equality: a format missing one of the STANDARD flags (or carrying only a subset) is reported valid although this build cannot honour it", f.loc())
+
+
+def rule_absent_punctuation_guarded(col, facts):
+    """GRD-absent (round-5): an optional punctuation character that the format does not define is stored as 0.
+    Every place where the parsers compare an input byte with the base prefix or base suffix character
+    (read_if_value / first_is / eq_ignore_ascii_case / `==`) must be dominated by `character != 0`: otherwise the
+    byte 0x00 *is* the prefix of a format that has none, and with the `format` feature the STANDARD format parses
+    `0\\x0025` as 25 (without the feature: InvalidDigit(1)) - the features are no longer additive."""
+    import re
+    if "format" not in facts.config:
+        return
+    R = "GRD-absent"
+    n = 0
+    pat = re.compile(r"(?i)base_(prefix|suffix)")
+    for f in facts.all_fns():
+        if f.crate not in ("lexical_parse_float", "lexical_parse_integer") or f.kind == "Closure":
+            continue
+        sites = []
+        for bb, c, a, d, t in f.calls():
+            cn = last_seg(callee_name(c))
+            if cn in ("base_prefix", "base_suffix", "case_sensitive_base_prefix", "case_sensitive_base_suffix", "has_base_prefix", "has_base_suffix"):
+                continue
+            for x in a[1:] if len(a) > 1 else []:
+                s = show(strip_casts(op_expr(f, x)))
+                m = pat.search(s)
+                if m and not s.lower().startswith("case_sensitive") and "case_sensitive" not in s.lower().split("base_")[0]:
+                    sites.append((bb, m.group(1).lower(), cn, f.blocks[bb]["ts"]))
+                    break
+        for i, b in enumerate(f.blocks):
+            if not f.live(i):
+                continue
+            for st in b["s"]:
+                if st[0] != "=" or st[2][0] != "bin" or st[2][1] not in ("Eq", "Ne"):
+                    continue
+                e = strip_casts(rvalue_expr(f, st[2], 0))
+                l, r = show(strip_casts(e[2])), show(strip_casts(e[3]))
+                for x, y in ((l, r), (r, l)):
+                    m = pat.search(x)
+                    if m and "case_sensitive" not in x.lower() and strip_casts(e[3] if x is l else e[2])[0] != "k":
+                        sites.append((i, m.group(1).lower(), "==", st[3]))
+                        break
+        for bb, which, how, sp in sites:
+            ok = False
+            for _d, e, p in path_conditions(f, bb):
+                e = strip_casts(e)
+                if e[0] == "bin" and e[1] in ("Ne", "Eq") and pat.search(show(e)) and pat.search(show(e)).group(1).lower() == which:
+                    z = [x for x in (strip_casts(e[2]), strip_casts(e[3])) if x[0] == "k" and x[1] in (0, False)]
+                    if z and ((e[1] == "Ne") == bool(p)):
+                        ok = True
+                elif e[0] == "call" and last_seg(e[1]) == "has_base_" + which and p is True:
+                    ok = True
+            n += 1
+            col.check(R, "%s:%s:%s" % (f.short, which, how), ok,
+                      "an input byte is compared with the base %s character (%s) on a path where that character may be 0 (format without a base %s): the byte 0x00 then acts as the %s, so `0\\x0025` parses as 25 with the `format` feature and is an InvalidDigit without it" % (which, how, which, which), f.loc(sp))
+    col.floor(R, "comparisons of input bytes with optional base prefix / suffix characters", n, 6)
